@@ -200,13 +200,14 @@ class Session:
         conds = self.ids("cond")
         ops = []
         if meas:
-            ops += ["Query"] * 3 + ["Normalize", "GetDensity", "Multiply", "Multiply", "Hadamard", "EvaluateQ"]
+            ops += ["Query"] * 3 + ["Normalize", "GetDensity", "Multiply", "Multiply", "Hadamard", "EvaluateQ",
+                    "Integrate", "Integrate", "IntegrateLogFactor"]
         if fam:
             ops += ["Product", "Slice", "Slice"]
         if pdfs:
             ops += ["Marginal", "ConditionOn", "Entropy", "KL", "Update"]
         if conds:
-            ops += ["CondOnX", "SetY", "Transform", "Transform", "UpdateSigma", "SliceCond"]
+            ops += ["CondOnX", "SetY", "Transform", "Transform", "UpdateSigma", "SliceCond", "Info"]
         ops += ["NewFactor"] if self.family == "M" else ["NewPdfX"]
         op = rng.choice(ops)
         O = self.objs
@@ -249,6 +250,45 @@ class Session:
             i = rng.choice(meas)
             qx = [qrec(rand_vec(rng, Dm(i))) for _ in range(rng.choice([1, 2]))]
             return self.call({"op": "EvaluateQ", "i": i, "x": qx}, lambda: O[i - 1].evaluate_ln(stack(qx)))
+        if op == "Integrate":
+            i = rng.choice(meas)
+            D, Ri = Dm(i), R(i)
+            key = rng.choice(["x", "(Ax+a)", "xx'", "(Ax+a)'(Bx+b)", "(Ax+a)(Bx+b)'", "(Ax+a)(Bx+b)'(Cx+c)",
+                              "(Ax+a)'(Bx+b)(Cx+c)'", "(Ax+a)'(Bx+b)(Cx+c)'(Dx+d)", "(Ax+a)(Bx+b)'(Cx+c)(Dx+d)'"])
+            K, L, M = rng.choice([(1, 2, 3), (2, 3, 1), (3, 1, 2), (2, 2, 2)])
+            rows = {"(Ax+a)": (K,), "(Ax+a)'(Bx+b)": (K, K), "(Ax+a)(Bx+b)'": (K, L), "(Ax+a)(Bx+b)'(Cx+c)": (K, L, L),
+                    "(Ax+a)'(Bx+b)(Cx+c)'": (K, K, L), "(Ax+a)'(Bx+b)(Cx+c)'(Dx+d)": (K, K, L, L),
+                    "(Ax+a)(Bx+b)'(Cx+c)(Dx+d)'": (K, L, L, M)}.get(key, ())
+            none = {"mm": "none", "mat": [], "vm": "none", "vec": []}
+            coefs, kw = [], {}
+            for nm, k in zip("ABCD", rows):
+                mm = rng.choice(["shared", "shared", "per"])
+                vm = rng.choice(["shared", "per", "none"])
+                mats = [qrec(rand_mat(rng, k, D)) for _ in range(Ri if mm == "per" else 1)]
+                vecs = [qrec(rand_vec(rng, k)) for _ in range(Ri if vm == "per" else 1)] if vm != "none" else []
+                coefs.append({"mm": mm, "mat": mats, "vm": vm, "vec": vecs})
+                kw[nm + "_mat"] = stack(mats) if mm == "per" else jnp.asarray(qfloat(mats[0]))
+                if vm != "none":
+                    kw[nm.lower() + "_vec"] = stack(vecs) if vm == "per" else jnp.asarray(qfloat(vecs[0]))
+            while len(coefs) < 4:
+                coefs.append(none)
+            ev = {"op": "Integrate", "i": i, "key": key, "A": coefs[0], "B": coefs[1], "C": coefs[2], "D": coefs[3]}
+            return self.call(ev, lambda: O[i - 1].integrate(key, **kw))
+        if op == "IntegrateLogFactor":
+            i = rng.choice(meas)
+            cands = [j for j in fam if Dm(j) == Dm(i) and (R(j) == 1 or R(j) == R(i))]
+            if not cands:
+                return None
+            j = rng.choice(cands)
+            return self.call({"op": "IntegrateLogFactor", "i": i, "j": j}, lambda: O[i - 1].integrate("log u(x)", factor=O[j - 1]))
+        if op == "Info":
+            i = rng.choice(conds)
+            cands = [j for j in pdfs if Dm(j) == int(O[i - 1].Dx) and (R(i) == 1 or R(j) == 1)]
+            if not cands:
+                return None
+            j = rng.choice(cands)
+            kind = rng.choice(["conditional_entropy", "mutual_information"])
+            return self.call({"op": "Info", "kind": kind, "i": i, "j": j}, lambda: getattr(O[i - 1], kind)(O[j - 1]))
         if op == "Product":
             i = rng.choice(fam)
             return self.call({"op": "Product", "i": i}, lambda: O[i - 1].product(),
